@@ -341,3 +341,108 @@ Definition rx_init (qf : bool) (stream : bytes) (cuts : list nat) (rfail : optio
 Definition rx_session (cfg : rxcfg) (qf : bool) (cmds : list (nat * bool * nat)) (stream : bytes) (cuts : list nat)
            (rfail : option nat) : Cres (bool * rxst * list ev) :=
   run_cmds cfg cmds (rx_init qf stream cuts rfail) [].
+
+(** * the argument of BDAT (qsmtpd/data.c:smtp_bdat, in front of everything else) *)
+(** linein.s is a C string: it ends at the first NUL of the line *)
+Fixpoint cstr (l : bytes) : bytes :=
+  match l with [] => [] | b :: t => if N.eqb b 0 then [] else b :: cstr t end.
+
+Definition ULLONG_MAX : N := 18446744073709551615%N.
+
+(** strtoull(s, &more, 10) on a string that starts with a digit (no blank, no sign):
+    the value while it fits, whether it overflowed (errno = ERANGE), and [more] *)
+Fixpoint strtoull_digits (s : bytes) (acc : N) (ovf : bool) : N * bool * bytes :=
+  match s with
+  | b :: r => if N.leb BDAT_DIGIT_LO b && N.leb b BDAT_DIGIT_HI
+              then let v := (acc * N.of_nat BDAT_BASE + (b - BDAT_DIGIT_LO))%N in
+                   strtoull_digits r v (ovf || N.ltb ULLONG_MAX v)
+              else (acc, ovf, s)
+  | [] => (acc, ovf, [])
+  end.
+
+(** strcasecmp(a, b) == 0 for C strings (C locale) *)
+Fixpoint strcaseeq (a b : bytes) : bool :=
+  match a, b with
+  | [], [] => true
+  | x :: a', y :: b' => N.eqb (to_lower x) (to_lower y) && strcaseeq a' b'
+  | _, _ => false
+  end.
+
+(** [None] = return EINVAL; [Some (chunksize, LAST)] otherwise.  The dispatcher has made sure that
+    the line is at least "BDAT" and a blank, so linein.s + 5 is inside the string or at its NUL. *)
+Definition parse_bdat (line : bytes) : option (N * bool) :=
+  let arg := skipn BDAT_ARG_OFF (cstr line) in
+  let c5 := hd 0%N arg in
+  if N.ltb c5 BDAT_DIGIT_LO || N.ltb BDAT_DIGIT_HI c5 then None else
+  let '(v, ovf, more) := strtoull_digits arg 0%N false in
+  if ovf then None else
+  match more with
+  | [] => Some (v, false)
+  | m :: rest => if negb (N.eqb m BDAT_SEP) then None
+                 else if strcaseeq rest BDAT_LAST_WORD then Some (v, true) else None
+  end.
+
+(** smtp_bdat() as called by the dispatcher, [line] = linein *)
+Definition smtp_bdat_line (cfg : rxcfg) (line : bytes) (s : rxst) : Cres (option err * rxst * list ev) :=
+  if negb (r_goodrcpt s) then Ok (Some EDONE, s, [EvTarpit; EvReply 554]) else
+  match parse_bdat line with
+  | None => Ok (Some EINVAL, s, [])
+  | Some (n, last) => smtp_bdat cfg n last s
+  end.
+
+(** * sessions: the BDAT row of smtploop(), RSET, and the start of a transaction (harness stand-ins) *)
+Definition com_bit (c : comst) : N := match c with CsRcpt _ => 64%N | CsBdat => 2048%N | CsHelo => 16%N end.
+
+Inductive sop := OpLine (pre : nat) (line : bytes) | OpRset (pre : nat) | OpBegin (pre : nat) (qf : bool).
+
+(** smtploop() for a line that names BDAT: [None] = died *)
+Definition dispatch_bdat (cfg : rxcfg) (line : bytes) (s : rxst) : Cres (option unit * rxst * list ev) :=
+  if N.eqb (N.land (com_bit (r_com s)) BDAT_MASK) 0 then Ok (Some tt, s, [Ev503]) else
+  if Nat.ltb RX_CMD_LINE_MAX (length line) then Ok (Some tt, s, [EvRc E2BIG]) else
+  if negb (N.eqb (nth BDAT_NAME_LEN (cstr line) 0%N) BDAT_SEP) then Ok (Some tt, s, [EvRc EINVAL]) else
+  do r <- smtp_bdat_line cfg line s;
+  let '(rc, s1, e1) := r in
+  match rc with
+  | None => Ok (None, s1, e1)
+  | Some e => Ok (Some tt, s1, e1 ++ [EvRc e])
+  end.
+
+Definition do_rset (s : rxst) : rxst * list ev :=
+  let '(s1, e1) := match r_com s with CsBdat => (queue_reset s, [EvReset]) | _ => (s, []) end in
+  (mk_rx CsHelo (r_lastcr s1) (r_bdaterr s1) (r_msgsize s1) false (r_qdata s1) (r_qhdr s1) (r_wcount s1) (r_net s1),
+   e1 ++ [EvFree; EvReply 250; EvRsetOk]).
+
+Definition do_begin (slen : nat) (qf : bool) (s : rxst) : rxst * list ev :=
+  match r_com s with
+  | CsHelo =>
+      (mk_rx (CsRcpt qf) (r_lastcr s) (r_bdaterr s) (r_msgsize s) true (r_qdata s) (r_qhdr s) (r_wcount s) (r_net s),
+       [EvBegin (slen - (length (n_ln (r_net s)) + length (n_stream (r_net s))))])
+  | _ => (s, [Ev503])
+  end.
+
+Fixpoint run_script (cfg : rxcfg) (slen : nat) (ops : list sop) (s : rxst) (evs : list ev)
+  : Cres (bool * rxst * list ev) :=
+  match ops with
+  | [] => Ok (false, s, evs)
+  | OpLine pre line :: rest =>
+      let s0 := set_net s (prebuffer pre (r_net s)) in
+      do r <- dispatch_bdat cfg line s0;
+      let '(alive, s1, e1) := r in
+      match alive with
+      | None => Ok (true, s1, evs ++ e1)
+      | Some _ => run_script cfg slen rest s1 (evs ++ e1)
+      end
+  | OpRset pre :: rest =>
+      let s0 := set_net s (prebuffer pre (r_net s)) in
+      let '(s1, e1) := do_rset s0 in run_script cfg slen rest s1 (evs ++ e1)
+  | OpBegin pre qf :: rest =>
+      let s0 := set_net s (prebuffer pre (r_net s)) in
+      let '(s1, e1) := do_begin slen qf s0 in run_script cfg slen rest s1 (evs ++ e1)
+  end.
+
+Definition rxs_init (stream : bytes) (cuts : list nat) (rfail : option nat) : rxst :=
+  mk_rx CsHelo false E0 0 false false false 0 (mk_net [] stream cuts rfail).
+
+Definition rx_script (cfg : rxcfg) (ops : list sop) (stream : bytes) (cuts : list nat) (rfail : option nat)
+  : Cres (bool * rxst * list ev) :=
+  run_script cfg (length stream) ops (rxs_init stream cuts rfail) [].
